@@ -13,3 +13,4 @@ pub mod ast_sx;
 pub mod refrun;
 pub mod rowcol;
 pub mod builtins;
+pub mod proc_sx;
